@@ -34,12 +34,15 @@ def check(ctx):
     if w["a_kind"] != "resp" or w["wrap_ms"] > 2700:
         ctx.cov["wrap_run_note"] = "wrap traffic too slow to race the 3 s timer (%d ms): not judged this run" % w["wrap_ms"]
     elif w["a_seq"] != w["b_seq"]:
-        raise vlib.ToolFailure("wrap scenario did not reuse the serial: %s" % w)
+        ctx.cov["wrap_run_note"] = "request B was not numbered like request A after 65536 frames (numbering is C06's claim): stale-timer race not set up this run"
     elif not (w["b_kind"] == "timeout" and w["b_ms"] >= w["b_tmo_ms"] - 20):
         ctx.violation("stale-timeout-after-serial-wrap", "request B (time-out %d ms, never answered) returned '%s' after %d ms: completed by the timer "
                       "of request A, answered earlier with the same platform serial %d" % (w["b_tmo_ms"], w["b_kind"], w["b_ms"], w["a_seq"]),
                       {"kind": "live-c12wrap", "observed": w})
     ctx.note_impl("serial-wrap-stale-timer-scenario", 1)
+    from checks.c01 import trace_validate
+    wev = vlib.read_nd(wr, quoted=False)
+    trace_validate(ctx, "Trace_WrapCmds", wr, wev, "commands-outstanding-across-the-serial-wrap", lambda inv, e: inv)
     kinds = {}
     for e in events:
         if e["ev"] == "cmd_ret":
